@@ -29,7 +29,7 @@ ASSUMPTIONS = [
 def plan(tier: str) -> dict:
     quick = tier == "quick"
     return {
-        "cases": 4000 if quick else 480000,
+        "cases": 12000 if quick else 480000,
         "shards": 16,
         "budget_s": 35 if quick else 540,
         "floors": {"walker_evaluations": 20000 if quick else 500000, "calls_raised": 2000, "calls_returned": 10000},
